@@ -174,7 +174,33 @@ func c15GenRev(r *Rng, idx int) c15Rev {
 		Pre:    Pick(r, []string{"cold", "cold", "cold", "cold", "cold", "warm", "warm", "warm", "nohdr", "hdr"}),
 	}
 	rev.Source = fmt.Sprintf("xpkg.example.org/acme/%s:v1.%d.0", rev.Name[:4], r.Intn(10))
+	if r.Chance(1, 8) {
+		c15AlignStream(r, &rev)
+	}
 	return rev
+}
+
+// c15AlignStream pads an object so that the stream ends shortly behind a multiple of
+// the 4096-byte reads of the parser's bufio.Reader (a short last chunk).
+func c15AlignStream(r *Rng, rev *c15Rev) {
+	oi := -1
+	for i, d := range rev.Docs {
+		if d.T == "obj" {
+			oi = i
+			break
+		}
+	}
+	if oi < 0 {
+		return
+	}
+	rev.Docs[oi].Pad = 1
+	st, _, _ := c15Stream(rev.Docs, rev.Shape)
+	L := len(st)
+	target := (L/4096+1)*4096 + r.Range(1, 700)
+	if r.Chance(1, 3) {
+		target += 4096 * r.Range(1, 3)
+	}
+	rev.Docs[oi].Pad = 1 + target - L
 }
 
 func c15GenFaults(r *Rng, rev *c15Rev) c15Faults {
@@ -215,7 +241,7 @@ func c15GenFaults(r *Rng, rev *c15Rev) c15Faults {
 			f.Read = b
 		}
 	}
-	if r.Chance(1, 5) {
+	if r.Chance(1, 4) {
 		f.Store = Pick(r, []string{"create", "write", "write", "write", "close"})
 		if f.Store == "write" {
 			stream, _, _ := c15Stream(rev.Docs, rev.Shape)
